@@ -60,6 +60,7 @@ Section Resume.
     - destruct (st_mode s); try discriminate. inversion H; subst s'; cbn. split; [|auto].
       apply In_release. exists r. split; [assumption|]. destruct (r_status r); try discriminate; reflexivity.
     - destruct (st_mode s); try discriminate. inversion H; subst s'; cbn. split; [|auto]. now apply add_many_keeps.
+    - destruct (st_mode s); try discriminate. destruct ((0 <? n) && (st_batch s + n <=? length starts))%nat eqn:G; [|discriminate]. inversion H; subst s'; cbn. split; [|auto]. now apply add_many_keeps.
   Qed.
 
   Lemma done_not_refetched s s' r : reach s -> steps s s' -> In r (st_tbl s) -> is_final (r_status r) = true ->
@@ -106,7 +107,7 @@ Section Resume.
     (forall u code links l, site u = Doc code links -> In l links -> In (fst l) U) ->
     (1 <= conc)%nat -> no_fail ->
     forall s s1, reach s -> Engine.fire site host in_scope maxredir starts conc LCrash s = Some s1 ->
-    (forall n s2, nsteps_nc site host in_scope maxredir starts conc n s1 s2 -> (n <= mu maxredir U s1)%nat) /\
+    (forall n s2, nsteps_nc site host in_scope maxredir starts conc n s1 s2 -> (n <= mu maxredir starts U s1)%nat) /\
     (forall s2, steps s1 s2 -> quiescent s2 ->
        st_items s2 = [] /\ forall r, In r (st_tbl s2) -> is_final (r_status r) = true).
   Proof.
@@ -144,6 +145,18 @@ Section Resume.
      with the span-hosts list of a fresh crawl of the same start URLs *)
   Lemma resume_same_span s : reach s -> st_mode s = Running -> forall h, In h (st_span s) <-> In h (sp0 host starts).
   Proof. intros R M. apply (ih_running _ _ s (reach_InvH site host in_scope maxredir starts conc s R) M). Qed.
+
+  (* the input is committed in batches and the process may be killed between two of them: whenever the crawl
+     proper is running, EVERY start URL has its row (level 0, its own root); and as long as no start-up ever
+     completed, the table holds nothing but such rows *)
+  Lemma starts_never_lost s : reach s ->
+    (st_mode s = Running -> forall u, In u starts -> In (start_info u) (infos (st_tbl s))) /\
+    (forall i, In i (infos (st_tbl s)) -> ri_level i = 0 -> i = start_info (ri_url i) /\ In (ri_url i) starts).
+  Proof.
+    intros R. pose proof (reach_InvH site host in_scope maxredir starts conc s R) as IH. split.
+    - intros M. apply (ih_running _ _ s IH M).
+    - apply (ih_lvl0 _ _ s IH).
+  Qed.
 End Resume.
 
 (* ------------------------------------------------------------------ *)
@@ -208,6 +221,23 @@ Proof.
       apply N.eqb_eq in Ha, Hb. subst. exact He.
     + assert (E : forallb (fun e => negb (snd (fst e) =? 6)) (st_log (get w3_final)) = true) by (vm_compute; reflexivity).
       rewrite forallb_forall in E. intros C. specialize (E _ C). cbn in E. discriminate E.
+Qed.
+
+(* witness (batched start-up): three start URLs committed in batches of two and one; the process is killed after
+   the first batch; the rerun commits both batches and then crawls *)
+Definition w4_labels : list label :=
+  [LRelease; LAddBatch 2; LCrash; LRelease; LAddBatch 2; LAddBatch 1; LAddStarts; LCheckout].
+Definition w4_killed := run_labels w2_site w2_host w2_scope 20 [1; 5; 6] 1 (firstn 3 w4_labels) init.
+Definition w4_run := run_labels w2_site w2_host w2_scope 20 [1; 5; 6] 1 w4_labels init.
+
+Lemma c03_batches_nonvacuous :
+  reach w2_site w2_host w2_scope 20 [1; 5; 6] 1 (get w4_killed) /\ reach w2_site w2_host w2_scope 20 [1; 5; 6] 1 (get w4_run) /\
+  st_mode (get w4_killed) = Down /\ urls (st_tbl (get w4_killed)) = [1; 5] /\
+  st_mode (get w4_run) = Running /\ urls (st_tbl (get w4_run)) = [1; 5; 6].
+Proof.
+  split; [apply (run_labels_reach _ _ _ _ _ _ (firstn 3 w4_labels) init); [constructor | vm_compute; reflexivity]|].
+  split; [apply (run_labels_reach _ _ _ _ _ _ w4_labels init); [constructor | vm_compute; reflexivity]|].
+  repeat split; vm_compute; reflexivity.
 Qed.
 
 Lemma c03_nonvacuous :
